@@ -1,7 +1,7 @@
 SPEC = {
     "id": "C02",
     "components": [
-        {"comp": "sim_c02", "module": "QV.Sys.MonC02", "quick": 80, "thorough": 2500},
+        {"comp": "sim_c02", "module": "QV.Sys.MonC02", "quick": 160, "thorough": 2500},
         {"comp": "sim_c02r", "module": "QV.Sys.MonRecovery", "quick": 96, "thorough": 3000},
     ],
     "assumptions": [
